@@ -83,6 +83,8 @@ inductive Op
   | query (q : Q) (m : AfMode)       -- ORM select of entities
   | count (q : Q) (m : AfMode)       -- select(func.count()).select_from(entity)…
   | core (q : Q) (m : AfMode)        -- Core select on the Table: ids only
+  | legacy (q : Q) (m : AfMode)      -- legacy Query of Table columns only (no ORM entity): ids
+  | legacyCount (q : Q) (m : AfMode) -- session.query(func.count(table.c.id))…
   | get (k : Key) (m : AfMode)
   | children (p : Nat) (m : AfMode)  -- lazy load of P.children (mode optOff not applicable)
   | flush
@@ -248,6 +250,16 @@ def step (c : Cfg) (st : St) : Op → St × Out
     match afStep c (coreFlushOn c m) st with
     | none => (rolledBack st, .integrity)
     | some st1 => (st1, .ids (evalQ c.n st1.db q).2)
+  | .legacy q m =>
+    -- a Query is an ORM statement even without an entity: orm_pre_session_exec autoflushes
+    -- according to its load options, whether or not there is a plugin_subject
+    match afStep c (autoflushOn c m) st with
+    | none => (rolledBack st, .integrity)
+    | some st1 => (st1, .ids (evalQ c.n st1.db q).2)
+  | .legacyCount q m =>
+    match afStep c (autoflushOn c m) st with
+    | none => (rolledBack st, .integrity)
+    | some st1 => (st1, .num (evalQ c.n st1.db q).2.length)
   | .get k m =>
     match st.objs k with
     | some o => (st, .obj (some (o.row.a, o.del)))
@@ -307,7 +319,7 @@ def opOk (c : Cfg) : Op → Bool
   | .setPid k p => keyOk c k && (match p with
                                   | some p => p < c.n
                                   | none => true)
-  | .query q _ | .count q _ | .core q _ => qOk c q
+  | .query q _ | .count q _ | .core q _ | .legacy q _ | .legacyCount q _ => qOk c q
   | .children p m => p < c.n && m != .optOff
   | .flush | .commit => true
 
